@@ -131,6 +131,13 @@ Definition ttree_type_ok (k : kind) : result unit :=
 Fixpoint all_ok {A} (f : A -> result unit) (l : list A) : result unit :=
   match l with [] => OK tt | x :: r => do _ <- f x; all_ok f r end.
 
+(* visit_special_BinOp (Pow): only numbers (int, float, double, bool; not pointers, collections, enum values) *)
+Definition pow_operand (k : kind) : result unit :=
+  match k with
+  | KVal (Some t) pd => if Nat.eqb pd 0 && (is_num_type t || String.eqb t "bool") then OK tt else Error ErrValue
+  | KVal None _ | KEnumVal | KColl _ _ _ _ | KSeq _ | KTree => Error ErrValue
+  | KTuple _ | KDict _ _ | KNs _ | KEnum _ => Error ErrAttr
+  end.
 Definition known_binop (op : string) : bool :=
   String.eqb op "Add" || String.eqb op "Sub" || String.eqb op "Mult" || String.eqb op "Div" || String.eqb op "Mod".
 Definition known_unop (op : string) : bool := String.eqb op "UAdd" || String.eqb op "USub" || String.eqb op "Not".
@@ -329,10 +336,15 @@ Fixpoint visit (fuel : nat) (fs : frames) (e : expr) {struct fuel} : result kind
           do _ <- as_cpp ka; do _ <- as_cpp kb;
           OK (KVal (Some (if String.eqb op "Div" then "double" else t)) 0)
         else if String.eqb op "Pow" then
-          do ka <- vis_cpp fs a; do kb <- vis_cpp fs b; OK (KVal (Some "double") 0)
+          do ka <- vis fs a; do kb <- vis fs b;
+          do _ <- pow_operand ka; do _ <- pow_operand kb;
+          do _ <- as_cpp ka; do _ <- as_cpp kb; OK (KVal (Some "double") 0)
         else Error ErrRuntime
     | EUnOp op a =>
-        if known_unop op then do k <- vis_cpp fs a; do t <- type_name k; OK (KVal (Some t) 0)
+        if known_unop op then
+          do k <- vis fs a;
+          do _ <- (if String.eqb op "Not" then OK tt else pow_operand k);   (* + and - : numbers only *)
+          do _ <- as_cpp k; do t <- type_name k; OK (KVal (Some t) 0)
         else Error ErrRuntime
     | ECompare ops l cs =>
         match ops, cs with
